@@ -1871,6 +1871,15 @@ def reuse_encode_case(ctx, kind, ka, kb, chain, cname, source="fresh"):
                       "object bound to the parameters of a first array returned a different second array",
                       "exception or %r" % (vals_b if kind != "float" else enc_floats(vals_b),),
                       repr(res[1])[:200]))
+    if mk is not None and first[0] == "ok" and ka != kb:
+        # A -> B -> A: whatever happened to B, the object still carries A's parameters and must take A again
+        third = reuse_roundtrip(arr_a, used)
+        if third[0] != "ok" or not reuse_match(arr_a, third[1], chain):
+            fails.append(("direct", "reuse:encode[%s]" % cname, "first_array_again_%s" %
+                          ("raised_%s" % third[2] if third[0] != "ok" else "altered"),
+                          "after_refused_second" if refused else "after_accepted_second",
+                          "object that encoded A, then met B, does not reproduce A any more",
+                          vals_a if kind != "float" else enc_floats(vals_a), list(third)[:2] if third[0] != "ok" else repr(third[1])[:150]))
     report(ctx, case, fails)
     ctx.count("accepted" if accept else "refusable")
     if refused:
@@ -2030,8 +2039,22 @@ def reuse_container_case(ctx, kind, ka, kb, variant):
             if masked:
                 cat["x"].mask.array[...] = np.array([(i + 1) % 3 for i in range(nb)], dtype=np.uint8)
         else:
+            if "rowcount_read" in variant:
+                cat.row_count  # the value is not judged; the cache it may leave behind is part of the state
+                len(cat["x"])
             cat["x"] = col(arr_b, nb, masked)
+            if "rowcount_read" in variant:
+                cat.row_count
             cat["y"] = np.arange(nb, dtype=np.int32)
+            if "rowcount_read" in variant:
+                cat.row_count
+            if "three_steps" in variant:
+                # content of another size and back again: A -> B -> A, written after every step
+                file_bytes(f)
+                cat = f["blk"]["cat"]
+                cat["x"] = col(arr_a, na, masked)
+                cat["y"] = np.arange(na, dtype=np.int32)
+                arr_b, vals_b, nb = arr_a, vals_a, na
         phase = "second_write"
         raw2 = file_bytes(f)
         phase = "read"
@@ -2157,7 +2180,9 @@ def reuse_compress_twice_case(ctx, kind, key, tol, level):
 
 
 CONTAINER_VARIANTS = ["all_columns", "all_columns_masked", "one_column", "inplace", "inplace_masked",
-                      "reread_all_columns", "reread_touched_all_columns_masked", "reread_one_column"]
+                      "reread_all_columns", "reread_touched_all_columns_masked", "reread_one_column",
+                      "all_columns_three_steps", "all_columns_rowcount_read", "reread_all_columns_rowcount_read",
+                      "reread_all_columns_three_steps"]
 
 
 def reuse_sets(kind):
@@ -3019,6 +3044,366 @@ def audit_replay(case, ctx):
 
 
 # ---------------------------------------------------------------------------
+# second audit: result identity, value-keyed branches / two-feature values, derived inputs
+# ---------------------------------------------------------------------------
+def identity_file(shape):
+    """Files for the identity family, incl. the degenerate ones where compress() has nothing to do."""
+    pdbx = _enc()["pdbx"]
+    if shape == "no_blocks":
+        return pdbx.BinaryCIFFile()
+    if shape == "empty_block":
+        return pdbx.BinaryCIFFile({"blk": pdbx.BinaryCIFBlock()})
+    cols = {
+        "single_values": {"x": np.array([5], dtype=np.int32), "y": np.array(["a"])},
+        "plain": {"x": np.array([3, -1, 70000, 3], dtype=np.int32), "y": np.array(["a", "", "é b", "a"]),
+                  "z": np.array([1.5, 0.25, 1234.5, -3.0])},
+        "uncompressible": {"x": np.array([2**31 - 1, -(2**31)], dtype=np.int32)},
+    }[shape]
+    return pdbx.BinaryCIFFile({"blk": pdbx.BinaryCIFBlock({"cat": pdbx.BinaryCIFCategory(dict(cols))})})
+
+
+IDENTITY_SHAPES = ["no_blocks", "empty_block", "single_values", "plain", "uncompressible"]
+IDENTITY_LEVELS = ["file", "block", "category", "column", "data"]
+
+
+def identity_case(ctx, shape, level, twice):
+    """compress() is described as returning a new object of the same type: the result is not the operand, and
+    re-binding edits of the result (set / delete a key) leave the operand as it was.  `twice`: the operand is
+    itself a compress() result (already canonical input)."""
+    case = {"k": "identity", "f": "compress", "shape": shape, "level": level, "twice": twice}
+    pdbx = _enc()["pdbx"]
+    f = identity_file(shape)
+    try:
+        if twice:
+            f = pdbx.compress(f)
+        path = {"file": [], "block": ["blk"], "category": ["blk", "cat"], "column": ["blk", "cat", "x"],
+                "data": ["blk", "cat", "x"]}[level]
+        op = f
+        for k in path:
+            op = op[k]
+        if level == "data":
+            op = op.data
+    except KeyError:
+        return  # the shape has no such level
+    if not ctx.journal(case):
+        return
+    before = file_bytes(f) if shape != "empty_block" or True else None
+    keys_before = list(op.keys()) if hasattr(op, "keys") else None
+    try:
+        res = pdbx.compress(op)
+    except Exception as ex:  # noqa: BLE001
+        ctx.violation("identity:compress|raised_%s|%s,%s" % (type(ex).__name__, shape, level),
+                      "compress() of a writable object raised", case)
+        ctx.ev(1, 1)
+        return
+    bad = None
+    if type(res) is not type(op):
+        bad = "result_of_other_type"
+    elif res is op and level != "data":
+        # BinaryCIFData: 'the input data is kept' is documented; containers are described as new objects
+        bad = "result_is_the_operand"
+    elif hasattr(res, "keys"):
+        new_child = {"file": pdbx.BinaryCIFBlock, "block": pdbx.BinaryCIFCategory}.get(level)
+        try:
+            for k in list(res.keys()):
+                del res[k]
+            res["added_afterwards"] = (new_child() if new_child else pdbx.BinaryCIFColumn(np.array([1, 2, 3, 4][:max(1, len(keys_before) and 4)])))
+        except Exception as ex:  # noqa: BLE001
+            bad = "editing_result_raised_%s" % type(ex).__name__
+        if bad is None and list(op.keys()) != keys_before:
+            bad = "editing_result_changed_operand_keys"
+    if bad is None:
+        try:
+            if file_bytes(f) != before:
+                bad = "operand_writes_other_bytes_afterwards"
+        except Exception as ex:  # noqa: BLE001
+            bad = "operand_not_writable_afterwards_%s" % type(ex).__name__
+    if bad:
+        ctx.violation("identity:compress|%s|%s,%s" % (bad, level, "compressed_operand" if twice else "plain_operand"),
+                      "compress() result shares identity / containers with its operand", case)
+    ctx.count("accepted")
+    ctx.ev(1, 1)
+    ctx.outcome(("id", shape, level, twice, bad))
+
+
+def identity_ctor_case(ctx, cls_name):
+    """Containers built from a dict: editing the container afterwards / the dict afterwards.  The unchanged
+    tree copies the dict for category and block and keeps it for the file: statement silent -> counted."""
+    case = {"k": "identity", "f": "ctor", "cls": cls_name}
+    if not ctx.journal(case):
+        return
+    pdbx = _enc()["pdbx"]
+    if cls_name == "BinaryCIFCategory":
+        d = {"x": pdbx.BinaryCIFColumn(np.array([1, 2]))}
+        obj = pdbx.BinaryCIFCategory(d)
+        obj["y"] = pdbx.BinaryCIFColumn(np.array([3, 4]))
+    elif cls_name == "BinaryCIFBlock":
+        d = {"c": pdbx.BinaryCIFCategory({"x": np.array([1, 2])})}
+        obj = pdbx.BinaryCIFBlock(d)
+        obj["c2"] = pdbx.BinaryCIFCategory({"x": np.array([1])})
+    else:
+        d = {"b": pdbx.BinaryCIFBlock()}
+        obj = pdbx.BinaryCIFFile(d)
+        obj["b2"] = pdbx.BinaryCIFBlock()
+    if len(d) != 1:
+        ctx.count("unspecified_container_keeps_callers_dict")
+    d["later"] = list(d.values())[0]
+    if "later" in obj:
+        ctx.count("unspecified_container_keeps_callers_dict")
+    ctx.count("accepted")
+    ctx.ev(1, 1)
+    ctx.outcome(("idc", cls_name, len(d)))
+
+
+def run_identity_shard(shard, ctx):
+    for shape in IDENTITY_SHAPES:
+        for level in IDENTITY_LEVELS:
+            for twice in (False, True):
+                identity_case(ctx, shape, level, twice)
+    for cls_name in ("BinaryCIFCategory", "BinaryCIFBlock", "BinaryCIFFile"):
+        identity_ctor_case(ctx, cls_name)
+
+
+# ---- values the anchored code treats by value; two awkward features in one value ---------------------
+COMBO_INTS = [-256, -255, -384, -32640, -65536, -98304, -2 * 32767, 254, 510, 2 * 255 + 1, 65534, 131070,
+              32767 * 2 + 1, -(2**31) + 128, 2**31 - 128, -129 * 128, 255 * 255, -128 * 255]
+COMBO_STRINGS = ["é" * 300, " é", "é ", "a b" * 100, "\U0001d6fc" * 256 + " ", "x" * 255 + "é", " ", "  ", "\t",
+                 "'\"", "é\U0001d6fc a", "\n", "a\nb"]
+ODD_DTYPES = ["float16", "longdouble", "bool", "S3", "complex128", "datetime64[s]"]
+
+
+def values_case(ctx, what, i):
+    case = {"k": "values", "what": what, "i": i}
+    if not ctx.journal(case):
+        return
+    env = _enc()
+    E, pdbx, msgpack = env["E"], env["pdbx"], env["msgpack"]
+
+    def trip(arr, encs=None, use_compress=False):
+        d = pdbx.compress(pdbx.BinaryCIFData(arr)) if use_compress else pdbx.BinaryCIFData(arr, encs)
+        packed = msgpack.packb(d.serialize(), use_bin_type=True, default=env["encode_numpy"])
+        return pdbx.BinaryCIFData.deserialize(msgpack.unpackb(packed, use_list=True, raw=False)).array
+
+    bad = None
+    refusal_wanted = False
+    try:
+        if what == "byte_count":
+            # documented: supported values are 1 and 2
+            bc = [0, 3, 4, -1, 8][i]
+            refusal_wanted = True
+            got = trip(np.array([1, 200, -3], dtype=np.int32), [E.IntegerPackingEncoding(bc), E.ByteArrayEncoding()])
+            bad = "unsupported_byte_count_accepted"
+        elif what == "type_code":
+            tc = [0, 7, 31, 34, -1][i]
+            refusal_wanted = True
+            E.ByteArrayEncoding(type=tc)
+            bad = "unknown_type_code_accepted"
+        elif what == "encoding_kind":
+            content = [{"kind": "Unknown"}, {"kind": "FixedPoint"}, {"kind": "ByteArray", "type": 3, "extra": 1},
+                       {"kind": "RunLength", "srcType": 3}, {"kind": "IntegerPacking"}, {"kind": "bytearray", "type": 3}][i]
+            if i == 3:  # srcSize is optional for RunLength (determined from the data)
+                enc = E.deserialize_encoding(content)
+                if not same_array(np.array([7, 7, 9], dtype=np.int32), enc.decode(np.array([7, 2, 9, 1], dtype=np.int32))):
+                    bad = "run_length_without_size_decodes_wrong"
+            else:
+                refusal_wanted = True
+                E.deserialize_encoding(content)
+                bad = "invalid_encoding_description_accepted"
+        elif what == "compress_type":
+            obj = [np.array([1, 2]), [1, 2], None, "text", 5][i]
+            refusal_wanted = True
+            pdbx.compress(obj)
+            bad = "unsupported_argument_accepted"
+        elif what == "dtype":
+            dt = ODD_DTYPES[i]
+            if dt == "float16":
+                arr = np.array([1.5, -0.25, 65504.0, 0.0], dtype=dt)
+            elif dt == "longdouble":
+                arr = np.array([1.5, -0.25, 1234.5], dtype=dt)
+            elif dt == "bool":
+                arr = np.array([True, False])
+            elif dt == "S3":
+                arr = np.array([b"ab", b"c"])
+            elif dt == "complex128":
+                arr = np.array([1 + 2j])
+            else:
+                arr = np.array([0, 1], dtype=dt)
+            exact = dt in ("float16", "longdouble")  # widths the format lacks: stored in the next wider / narrower type
+            for use_compress in (False, True):
+                try:
+                    got = trip(arr, None, use_compress)
+                except Exception:  # noqa: BLE001
+                    ctx.count("unspecified" if exact else "refused_observed")
+                    continue
+                if not exact:
+                    bad = "dtype_%s_accepted_and_converted" % dt
+                elif got.dtype.kind != "f" or got.astype(np.float64).tolist() != arr.astype(np.float64).tolist():
+                    bad = "dtype_%s_altered" % dt
+        elif what == "mask_value":
+            mv = [3, 255, 127][i]
+            col = pdbx.BinaryCIFColumn(np.array([1, 2, 3]), np.array([0, mv, 2], dtype=np.uint8))
+            f = pdbx.BinaryCIFFile({"b": pdbx.BinaryCIFBlock({"c": pdbx.BinaryCIFCategory({"x": col})})})
+            g = pdbx.BinaryCIFFile.read(io.BytesIO(file_bytes(f)))
+            if g["b"]["c"]["x"].mask.array.tolist() != [0, mv, 2] or not (g == f):
+                bad = "mask_value_outside_enum_altered"
+            gc2 = pdbx.BinaryCIFFile.read(io.BytesIO(file_bytes(pdbx.compress(f))))
+            if gc2["b"]["c"]["x"].mask.array.tolist() != [0, mv, 2]:
+                bad = "mask_value_outside_enum_altered_by_compress"
+        elif what == "combo_int":
+            v = COMBO_INTS[i]
+            for dt in ("int32", "int64"):
+                arr = np.array([v, 0, v, v], dtype=dt)
+                for spec in ([P(1), B()], [P(2), B()], [P(1, False), B()], [P(2, False), B()], [D(), P(1), B()],
+                             [R(), P(2), B()], [P(1), R(), B()], None):
+                    if spec and spec[0][0] == "P" and pack_cost(arr, spec[0][1]["byte_count"]) > 10 * M.PACK_CAP:
+                        continue
+                    if spec and spec[0][0] == "D" and abs(v) > 2**24:
+                        continue
+                    got = trip(arr, [build(s) for s in spec]) if spec else trip(arr, None, True)
+                    if got.tolist() != arr.tolist():
+                        bad = "combo_int_altered|%s" % (chain_sig(spec) if spec else "compress")
+        elif what == "combo_str":
+            s = COMBO_STRINGS[i]
+            for arr in (np.array([s]), np.array([s, "", s, "a"]), np.array(["a", s + "b", s])):
+                for spec in list(REUSE_STR_SPECS.values()) + [None]:
+                    got = trip(arr, [build(spec)]) if spec else trip(arr, None, True)
+                    if got.tolist() != arr.tolist():
+                        bad = "combo_string_altered"
+    except Exception as ex:  # noqa: BLE001
+        if refusal_wanted:
+            ctx.count("refused_observed")
+        else:
+            bad = "raised_%s" % type(ex).__name__
+    if bad:
+        ctx.violation("values:%s|%s|%d" % (what, bad, i) if what in ("byte_count", "type_code", "encoding_kind",
+                                                                      "compress_type") else
+                      "values:%s|%s" % (what, bad),
+                      "a value the code treats specially (or one with two awkward features) is mishandled", case)
+    ctx.count("refusable" if refusal_wanted else "accepted")
+    ctx.ev(1, 1)
+    ctx.outcome(("val", what, i, bad))
+
+
+VALUES_SPACE = {"byte_count": 5, "type_code": 5, "encoding_kind": 6, "compress_type": 5, "dtype": len(ODD_DTYPES),
+                "mask_value": 3, "combo_int": len(COMBO_INTS), "combo_str": len(COMBO_STRINGS)}
+
+
+def run_values_shard(shard, ctx):
+    for what, n in VALUES_SPACE.items():
+        for i in range(n):
+            values_case(ctx, what, i)
+
+
+# ---- derived inputs: what the library hands out, fed into its other operations ------------------------
+DERIVED_SOURCES = ["decoded_default", "decoded_chain", "decoded_compress", "as_array_str", "as_array_masked_str",
+                   "as_array_float", "read_file_column"]
+DERIVED_SINKS = ["default", "chain", "compress", "masked_column_file"]
+
+
+def derived_case(ctx, kind, key, source, sink):
+    case = {"k": "derived", "kind": kind, "a": key, "source": source, "sink": sink}
+    arr, _ = reuse_array(kind, key)
+    if not len(arr):
+        return
+    if not ctx.journal(case):
+        return
+    env = _enc()
+    pdbx, msgpack = env["pdbx"], env["msgpack"]
+    chain = {"int": [D(), R(), P(2), B()], "float": [B(F64)], "str": [REUSE_STR_SPECS["deep"]]}[kind]
+
+    def trip(a, encs=None, use_compress=False):
+        d = pdbx.compress(pdbx.BinaryCIFData(a)) if use_compress else pdbx.BinaryCIFData(a, encs)
+        packed = msgpack.packb(d.serialize(), use_bin_type=True, default=env["encode_numpy"])
+        return pdbx.BinaryCIFData.deserialize(msgpack.unpackb(packed, use_list=True, raw=False)).array
+
+    try:
+        mask = np.array([i % 3 for i in range(len(arr))], dtype=np.uint8)
+        if source == "decoded_default":
+            y = trip(arr)
+        elif source == "decoded_chain":
+            y = trip(arr, [build(s) for s in chain])
+        elif source == "decoded_compress":
+            y = trip(arr, None, True)
+        elif source == "as_array_str":
+            y = pdbx.BinaryCIFColumn(arr).as_array(str)
+        elif source == "as_array_masked_str":
+            y = pdbx.BinaryCIFColumn(arr, mask).as_array(str)
+        elif source == "as_array_float":
+            y = pdbx.BinaryCIFColumn(arr, mask).as_array(float, masked_value=-1)
+        else:
+            f0 = pdbx.BinaryCIFFile({"b": pdbx.BinaryCIFBlock({"c": pdbx.BinaryCIFCategory(
+                {"x": pdbx.BinaryCIFColumn(pdbx.BinaryCIFData(arr, [build(s) for s in chain]), mask)})})})
+            y = pdbx.BinaryCIFFile.read(io.BytesIO(file_bytes(f0)))["b"]["c"]["x"]  # a column object of a read file
+    except Exception:  # noqa: BLE001
+        ctx.count("derived_source_not_available")  # NaN into str->float etc.: nothing derived to feed on
+        return
+    ycol = y if not isinstance(y, np.ndarray) else None
+    yarr = y.data.array if ycol is not None else y
+    if yarr.dtype.kind == "f" and bool(np.isnan(yarr).any()) and sink in ("compress",):
+        pass
+    want = yarr.copy()
+    snap = yarr.tobytes()
+    bad = None
+    try:
+        ykind = {"U": "str", "f": "float"}.get(yarr.dtype.kind, "int")
+        ychain = {"int": [D(), R(), P(2), B()], "float": [B()], "str": [REUSE_STR_SPECS["deep"]]}[ykind]
+        if sink == "default":
+            got = trip(yarr)
+        elif sink == "chain":
+            got = trip(yarr, [build(s) for s in ychain])
+        elif sink == "compress":
+            got = trip(yarr, None, True)
+        else:
+            col = ycol if ycol is not None else pdbx.BinaryCIFColumn(yarr, np.array([(i + 1) % 3 for i in range(len(yarr))],
+                                                                            dtype=np.uint8))
+            f = pdbx.BinaryCIFFile({"n": pdbx.BinaryCIFBlock({"m": pdbx.BinaryCIFCategory(
+                {"moved": col, "idx": np.arange(len(yarr), dtype=np.int32)})})})
+            g = pdbx.BinaryCIFFile.read(io.BytesIO(file_bytes(pdbx.compress(f))))
+            got = g["n"]["m"]["moved"].data.array
+            if g["n"]["m"]["moved"].mask.array.tolist() != col.mask.array.tolist() or g["n"]["m"].row_count != len(yarr):
+                bad = "mask_or_row_count_of_moved_column_differs"
+        if bad is None:
+            if want.dtype.kind == "f":
+                ok = exact_or_tol(want[~np.isnan(want)], got[~np.isnan(want)], 1e-6 if sink in ("compress", "masked_column_file") else 0) \
+                    and bool(np.isnan(got[np.isnan(want)]).all()) and len(got) == len(want)
+            else:
+                ok = exact_or_tol(want, got, 0)
+            if not ok:
+                bad = "derived_array_reads_back_different"
+            elif yarr.tobytes() != snap:
+                bad = "derived_array_modified"
+    except Exception as ex:  # noqa: BLE001
+        bad = "raised_%s" % type(ex).__name__
+    if bad:
+        ctx.violation("derived:%s->%s|%s|%s" % (source, sink, bad, kind),
+                      "an array / column handed out by the library is not handled like a directly built one", case,
+                      expected=repr(want)[:120])
+    ctx.count("accepted")
+    ctx.ev(1, 1)
+    ctx.outcome(("der", kind, key, source, sink, bad))
+
+
+def run_derived_shard(shard, ctx):
+    kind = shard["kind"]
+    arrays, _ = reuse_sets(kind)
+    for key in arrays:
+        for source in DERIVED_SOURCES:
+            for sink in DERIVED_SINKS:
+                derived_case(ctx, kind, key, source, sink)
+
+
+def audit2_replay(case, ctx):
+    k = case["k"]
+    if k == "identity":
+        if case["f"] == "ctor":
+            return identity_ctor_case(ctx, case["cls"])
+        return identity_case(ctx, case["shape"], case["level"], case["twice"])
+    if k == "values":
+        return values_case(ctx, case["what"], case["i"])
+    return derived_case(ctx, case["kind"], case["a"], case["source"], case["sink"])
+
+
+# ---------------------------------------------------------------------------
 # contract
 # ---------------------------------------------------------------------------
 def bounds(tier):
@@ -3103,6 +3488,10 @@ def shards(tier, seed):
         out.append({"s": "flavour", "kind": kind})
     add(8, s="sizes")
     add(2, s="lazy")
+    out.append({"s": "identity"})
+    out.append({"s": "values"})
+    for kind in ("int", "float", "str"):
+        out.append({"s": "derived", "kind": kind})
     # the seed rotates the processing order inside the leading (integer) block only
     n_int = sum(1 for x in out if x["s"] == "int")
     k = seed % n_int
@@ -3145,6 +3534,12 @@ def _run_shard(shard, ctx):
         run_sizes_shard(shard, ctx)
     elif s == "lazy":
         run_lazy_shard(shard, ctx)
+    elif s == "identity":
+        run_identity_shard(shard, ctx)
+    elif s == "values":
+        run_values_shard(shard, ctx)
+    elif s == "derived":
+        run_derived_shard(shard, ctx)
     else:
         raise ValueError(shard)
 
@@ -3174,6 +3569,8 @@ def replay(case, ctx):
         reuse_replay(case, ctx)
     elif k in ("alias", "flavour", "sizes", "lazy"):
         audit_replay(case, ctx)
+    elif k in ("identity", "values", "derived"):
+        audit2_replay(case, ctx)
     else:
         raise ValueError(case)
 
